@@ -32,6 +32,28 @@ class MachineryError(Exception):
     pass
 
 
+class Timeout(BaseException):
+    """Raised inside the main thread when a call into the package exceeds its time budget
+    (non-termination becomes an observation instead of a hang)."""
+
+
+import contextlib
+import signal
+
+
+@contextlib.contextmanager
+def time_limit(seconds):
+    def handler(signum, frame):
+        raise Timeout('no result after %.1fs' % seconds)
+    old = signal.signal(signal.SIGALRM, handler)
+    signal.setitimer(signal.ITIMER_REAL, seconds)
+    try:
+        yield
+    finally:
+        signal.setitimer(signal.ITIMER_REAL, 0)
+        signal.signal(signal.SIGALRM, old)
+
+
 def pp_module(name='prettyprinter.prettyprinter'):
     # `import prettyprinter.prettyprinter as x` yields the package (name rebinding
     # in __init__), so always go through importlib.
